@@ -464,7 +464,7 @@ var (
 )
 
 func TestC10Batches(t *testing.T) {
-	vstat.Rule("C10", "batches: list endpoints called with 2..4 submissions, one of them invalid (same validator and slot as a valid one with altered content / other share / zero signature, or another validator), drawn order; oracle: every partial handed to a subscriber verifies under the public share of its validator and this node's share index; non-trivial = the invalid entry shares validator and slot with a valid one")
+	vstat.Rule("C10", "batches: list endpoints called with 2..6 submissions, one to three of them invalid (same validator and slot as a valid one with altered content / other share / zero signature, or another validator), drawn order; oracle: every partial handed to a subscriber verifies under the public share of its validator and this node's share index; non-trivial = the invalid entry shares validator and slot with a valid one")
 	rapid.Check(t, func(rt *rapid.T) {
 		n := rapid.SampledFrom([]int{3, 4, 6}).Draw(rt, "n")
 		cl := newCluster(n)
@@ -495,37 +495,43 @@ func TestC10Batches(t *testing.T) {
 			g.install(w)
 			items = append(items, g)
 		}
-		// the invalid entry
-		sameKey := rapid.IntRange(0, 2).Draw(rt, "sameValidatorAndSlot") != 0
-		bv := v
-		if !sameKey {
-			bv = cl.vals[(vi+1+rapid.IntRange(0, len(cl.vals)-2).Draw(rt, "otherVal"))%len(cl.vals)]
-		}
-		bad := builders[bi](t, cl, bv, me, seed)
-		bad.signWith(cl.bn, bv.shares[me])
-		bad.install(w)
-		how := rapid.SampledFrom([]string{"content_changed_old_signature", "other_share", "zero_signature", "garbage_signature"}).Draw(rt, "how")
-		switch how {
-		case "content_changed_old_signature":
-			before := bad.snap(cl.bn)
-			leaves := valgen.Leaves(bad.api)
-			l := leaves[rapid.IntRange(0, len(leaves)-1).Draw(rt, "leaf")]
-			l.Mutate(rapid.IntRange(0, 1023).Draw(rt, "bit"))
-			after := bad.snap(cl.bn)
-			if after.ok && after.root == before.root && after.sig == before.sig {
-				rt.Skip("alteration does not change signed content")
+		// the invalid entries (one, sometimes two or three: what a handler does after the first refusal matters)
+		nBad := rapid.SampledFrom([]int{1, 1, 2, 3}).Draw(rt, "invalidEntries")
+		sameKey := false
+		how, pos := "", 0
+		for b := 0; b < nBad; b++ {
+			same := rapid.IntRange(0, 2).Draw(rt, "sameValidatorAndSlot") != 0
+			bv := v
+			if !same {
+				bv = cl.vals[(vi+1+rapid.IntRange(0, len(cl.vals)-2).Draw(rt, "otherVal"))%len(cl.vals)]
 			}
-		case "other_share":
-			bad.signWith(cl.bn, bv.shares[me%n+1])
-		case "zero_signature":
-			*bad.sig() = eth2p0.BLSSignature{}
-		default:
-			sg := bad.sig()
-			sg[5] ^= 0x40
-			sg[70] ^= 0x01
+			sameKey = sameKey || same
+			bad := builders[bi](t, cl, bv, me, seed)
+			bad.signWith(cl.bn, bv.shares[me])
+			bad.install(w)
+			how = rapid.SampledFrom([]string{"content_changed_old_signature", "other_share", "zero_signature", "garbage_signature"}).Draw(rt, "how")
+			switch how {
+			case "content_changed_old_signature":
+				before := bad.snap(cl.bn)
+				leaves := valgen.Leaves(bad.api)
+				l := leaves[rapid.IntRange(0, len(leaves)-1).Draw(rt, "leaf")]
+				l.Mutate(rapid.IntRange(0, 1023).Draw(rt, "bit"))
+				after := bad.snap(cl.bn)
+				if after.ok && after.root == before.root && after.sig == before.sig {
+					rt.Skip("alteration does not change signed content")
+				}
+			case "other_share":
+				bad.signWith(cl.bn, bv.shares[me%n+1])
+			case "zero_signature":
+				*bad.sig() = eth2p0.BLSSignature{}
+			default:
+				sg := bad.sig()
+				sg[5] ^= 0x40
+				sg[70] ^= 0x01
+			}
+			pos = rapid.IntRange(0, len(items)).Draw(rt, "position")
+			items = append(items[:pos], append([]*submission{bad}, items[pos:]...)...)
 		}
-		pos := rapid.IntRange(0, len(items)).Draw(rt, "position")
-		items = append(items[:pos], append([]*submission{bad}, items[pos:]...)...)
 
 		comp, rec := newComponent(cl, me, w)
 		var err error
@@ -550,7 +556,7 @@ func TestC10Batches(t *testing.T) {
 				}
 			}
 		}
-		vstat.Case(fmt.Sprintf("batch/%s/%s/%d/%d/%v/%d", good.endpoint, how, pos, len(items), sameKey, seed), sameKey, "batch:"+good.endpoint, "batch_how:"+how, cls("batch_rejected_whole", err != nil), cls("batch_delivered_some", len(*rec) > 0))
+		vstat.Case(fmt.Sprintf("batch/%s/%s/%d/%d/%v/%d", good.endpoint, how, pos, len(items), sameKey, seed), sameKey, "batch:"+good.endpoint, "batch_how:"+how, fmt.Sprintf("batch_invalid_entries:%d", nBad), cls("batch_rejected_whole", err != nil), cls("batch_delivered_some", len(*rec) > 0))
 	})
 }
 
